@@ -76,6 +76,20 @@ def cell_field(B, m, t):
     return None
 
 
+def reset_around(B, m, field, get_blk, sink_blk):
+    """the cell read with get() is emptied (set(.., 0) / replace(.., 0)) after the read and before / right after the
+    publication: equivalent to moving the value out"""
+    for r, t in B.calls():
+        cn = cfg.callee_name(t) or ""
+        if not (cn.endswith("Cell::<T>::set") or cn.endswith("Cell::<T>::replace")):
+            continue
+        if cell_field(B, m, t) != field or len(t["a"]) < 2 or cfg.const_int(t["a"][1]) != 0:
+            continue
+        if B.dominates(get_blk, r) and (B.dominates(r, sink_blk) or B.postdominates(r, sink_blk)):
+            return True
+    return False
+
+
 def run(ctx, F, rule="E-FREELIST"):
     n = 0
     for fid, m in sorted(F.mir.items()):
@@ -113,7 +127,7 @@ def run(ctx, F, rule="E-FREELIST"):
                     cn = cfg.callee_name(t) or ""
                     if cn.endswith("Cell::<T>::get"):
                         f = cell_field(B, m, t)
-                        if f in ("next_free", "node_count_delta"):
+                        if f in ("next_free", "node_count_delta") and not reset_around(B, m, f, o[2], i):
                             bad = f
             nice = F.nice(fid)
             allowed = [k for k in ALLOW if k in nice]
@@ -125,6 +139,131 @@ def run(ctx, F, rule="E-FREELIST"):
                    "%s (%s): `%s` publishes the thread-local `%s` read with Cell::get(); the local cell keeps its value, so "
                    "the same free slots / count delta are handed over again later although other threads may have "
                    "allocated them in the meantime (a live node gets overwritten). Move the value out with "
-                   "Cell::replace(.., 0)" % (nice, F.where(fid), what, bad))
+                   "Cell::replace(.., 0) or reset the cell next to the publication" % (nice, F.where(fid), what, bad))
     ctx.floor(rule, "hand-over sites of local free lists / count deltas", n, 6)
     return n
+
+
+NODE_COUNT = ".node_count@" + SHARED
+
+
+def _is_nc_update(s, op):
+    lhs = s.get("lhs")
+    rv = s.get("rv") or {}
+    return isinstance(lhs, dict) and lhs.get("p") and lhs["p"][-1] == NODE_COUNT and rv.get("k") in ("bin", "checked") \
+        and str(rv.get("o", "")).startswith(op)
+
+
+def check_count_bookkeeping(ctx, F, rule="E-FREELIST.count"):
+    """The shared (approximate) node count that drives the automatic garbage collection stays in step with the nodes.
+      undo    in get_slot_from_shared the count is raised by a delta that already includes the node about to be
+              created; every `Err(OutOfMemory)` exit reached after that is preceded by `node_count -= 1`;
+      stored  a thread-local delta that was read and adjusted (`let delta = node_count_delta.get() +/- 1`) is either
+              written back or added to the shared count on every path (no computed delta is dropped)."""
+    n = 0
+    for fid, m in sorted(F.mir.items()):
+        if not fid.startswith("oxidd_manager_index::manager::"):
+            continue
+        B = cfg.Body(m)
+        blocks = [i for i in sorted(B.reach) if not m["blocks"][i]["c"]]
+        if fid.endswith("::get_slot_from_shared"):
+            adds = [i for i in blocks if any(_is_nc_update(s, "Add") for s in m["blocks"][i]["s"])]
+            errs = []
+            for i in blocks:
+                seen_sub = False
+                for s in m["blocks"][i]["s"]:
+                    if _is_nc_update(s, "Sub") and cfg.const_int((s["rv"].get("b") or {})) == 1:
+                        seen_sub = True
+                    rv = s.get("rv") or {}
+                    if s.get("lhs") == 0 and rv.get("k") == "aggr" and rv.get("variant") == "Err":
+                        errs.append((i, seen_sub))
+            subs = [i for i in blocks if any(_is_nc_update(s, "Sub") for s in m["blocks"][i]["s"])]
+            n += 1
+            if ctx.anchor(rule, "get_slot_from_shared: node_count += delta / Err exits", bool(adds) and bool(errs)):
+                bad = [i for i, same in errs if any(B.can_reach(a, i) for a in adds) and not same and
+                       not any(B.dominates(sb, i) and any(B.dominates(a, sb) for a in adds) for sb in subs)]
+                ctx.ob(rule, rule + ":undo:get_slot_from_shared", not bad,
+                       "%s (%s): %s" % (F.nice(fid), F.where(fid),
+                                        "every OutOfMemory exit after `node_count += delta` undoes the +1 of the node that was "
+                                        "not created (%d exits)" % len(errs) if not bad else
+                                        "%d of %d OutOfMemory exit(s) keep the +1 for the node that was not created: every failed "
+                                        "allocation inflates the node count that arms the automatic gc" % (len(bad), len(errs))))
+        # computed deltas must not be dropped
+        for L, loc in enumerate(m["locals"]):
+            if loc.get("n") != "delta":
+                continue
+            # definitions from a binary op on a Cell::get result
+            defs = []
+            for i in blocks:
+                for k, s in enumerate(m["blocks"][i]["s"]):
+                    rv = s.get("rv") or {}
+                    if s.get("lhs") == L and rv.get("k") in ("bin", "checked") and str(rv.get("o", ""))[:3] in ("Add", "Sub"):
+                        src = origins(B, m, [rv.get("a")])
+                        if any(o[0] == "call" and (cfg.callee_name(o[1]) or "").endswith("Cell::<T>::get") and
+                               cell_field(B, m, o[1]) == "node_count_delta" for o in src):
+                            defs.append((i, k))
+            for (bi, k) in defs:
+                n += 1
+
+                # temporaries holding a copy / cast of the delta
+                carriers = {L}
+                grown = True
+                while grown:
+                    grown = False
+                    for i2 in blocks:
+                        for s2 in m["blocks"][i2]["s"]:
+                            rv2 = s2.get("rv") or {}
+                            if rv2.get("k") in ("use", "cast") and isinstance(s2.get("lhs"), int) and s2["lhs"] not in carriers \
+                                    and any(_reads(rv2, c) for c in carriers):
+                                carriers.add(s2["lhs"])
+                                grown = True
+
+                def uses(block_idx, start):
+                    """a *storing* use: written back to the cell, added to the shared count, or handed to a callee"""
+                    b = m["blocks"][block_idx]
+                    for s in b["s"][start:]:
+                        if (_is_nc_update(s, "Add") or _is_nc_update(s, "Sub")) and any(_reads(s.get("rv"), c) for c in carriers):
+                            return True
+                    t = b.get("t") or {}
+                    if t.get("k") == "call":
+                        cn = cfg.callee_name(t) or ""
+                        args = t.get("a") or []
+                        if cn.endswith("Cell::<T>::set") and len(args) == 2 and any(_reads(args[1], c) for c in carriers):
+                            return True
+                        if not cn.startswith("std::") and not cn.startswith("core::") and any(_reads(args, c) for c in carriers):
+                            return True
+                    return False
+                ok = True
+                if not uses(bi, k + 1):
+                    seen, todo = set(), list(B.succ[bi])
+                    while todo:
+                        x = todo.pop()
+                        if x in seen or m["blocks"][x]["c"]:
+                            continue
+                        seen.add(x)
+                        if uses(x, 0):
+                            continue
+                        if m["blocks"][x]["t"]["k"] == "return" or not B.succ[x]:
+                            ok = False
+                            break
+                        todo.extend(B.succ[x])
+                nice = F.nice(fid)
+                ctx.ob(rule, "%s:stored:%s" % (rule, re.sub(r"\{closure#\d+\}", "{closure}", nice)), ok,
+                       "%s (%s): %s" % (nice, F.where(fid),
+                                        "the adjusted node-count delta is written back or published on every path" if ok else
+                                        "the adjusted thread-local node-count delta (`delta`) is dropped on a path to the return: "
+                                        "the shared count misses the node that was just created / freed"))
+    return n
+
+
+def _reads(x, L):
+    if isinstance(x, dict):
+        for k in ("cp", "mv"):
+            if k in x:
+                v = x[k]
+                if v == L or (isinstance(v, dict) and v.get("l") == L):
+                    return True
+        return any(_reads(v, L) for k, v in x.items() if k != "lhs")
+    if isinstance(x, list):
+        return any(_reads(v, L) for v in x)
+    return False
